@@ -144,15 +144,17 @@ theorem execution_readonly_partial :
   rw [List.all_eq_true] at h1 h2 h3
   exact ⟨h1, fun e he => by simpa using h2 e he, h3⟩
 
-/-- **No step reachable from the per-thread API writes a process-wide table (partial).**  Over the regenerated call graph
-(roots: every non-static member function of `XalanTransformer` — constructor, `transform`/`doTransform`, `compileStylesheet`,
-`parseSource`, `installExternalFunction`, …; edges through `XalanTransformer`, `XSLTProcessorEnvSupportDefault`,
-`XPathEnvSupportDefault`, constructors/destructors of their objects included): every reachable function that so much as
-mentions a process-wide variable (`XPathEnvSupportDefault::s_externalFunctions`, `XPath::s_functions`, the message loader, the
-init counters, …) is listed and classified as a read.  A forwarder that reaches `installExternalFunctionGlobal` from
-`doTransform` adds an unclassified entry and this stops checking.  `_partial`: the call graph is restricted to those three
-classes (what `doTransform` does through `XSLTEngineImpl` and the execution contexts is covered by the const-execution
-entries and by the ThreadSanitizer runs with per-transformer extension functions), and it is extracted by regular expressions. -/
+/-- **No step reachable from the per-thread objects of a transformation writes a process-wide table (partial).**  Over the
+regenerated call graph — roots: every non-static member function of `XalanTransformer`, `XSLTEngineImpl`,
+`StylesheetExecutionContextDefault`, `XPathExecutionContextDefault`, `XSLTProcessorEnvSupportDefault`, `XPathEnvSupportDefault`
+(the objects a thread owns; the const interpreter calls back into them through their virtual interfaces, so all of their
+members count as reachable) and `StylesheetRoot::process`; edges among these classes, constructors/destructors of their objects
+included — every reachable function that so much as mentions a process-wide variable (`XPathEnvSupportDefault::s_externalFunctions`,
+`StylesheetExecutionContextDefault::s_xalanNumberFormatFactory`, the message loader, the init counters, …) is listed and classified as
+a read.  A forwarder that reaches `installExternalFunctionGlobal` from `doTransform`, or an execution-context member that assigns
+a static, adds an unclassified entry and this stops checking.  `_partial`: the graph is extracted by regular expressions
+(cross-checked against clang's typed AST in the thorough tier) and stops at the interpreter (`Elem*`, `XPath`, `Function*`:
+covered by the const-execution entries of the table) and at Xerces/ICU. -/
 theorem transform_touches_no_process_table_partial :
     ∀ e ∈ C07_Share.table, e.kind = Kind.transformTouch → classify e = some Guard.readOnlyUse := by
   have h : C07_Share.table.all (fun e => e.kind != Kind.transformTouch || classify e == some Guard.readOnlyUse) = true := by
